@@ -3,7 +3,7 @@
     Model: Model/Fs.v (the kernel's component walk with "..", ".", absolute restarts;
     [PathBuf::push]), Model/Verify.v (the tree with the repaired [FilePath] deserialiser). *)
 From Coq Require Import NArith ZArith List Bool.
-From Imdl Require Import Base.Chunks Model.Bencode Model.Fs Model.Verify Proofs.FsProofs Proofs.VerifyProofs Proofs.VerifyExamples.
+From Imdl Require Import Base.Chunks Model.Bencode Model.Fs Model.Verify Proofs.FsProofs Proofs.LoaderProofs Proofs.VerifyProofs Proofs.VerifyExamples.
 Import ListNotations.
 Local Open Scope N_scope.
 
@@ -18,6 +18,11 @@ Check load_screens : forall tb t, load tb = Some t -> Forall (fun f => plain_pat
 Theorem c13_loader_admits_only_plain : forall tb t,
   load tb = Some t -> Forall (fun f => plain_path (fpath f)) (files_of t).
 Proof. exact load_screens. Qed.
+(** ... in particular every torrent the command's typed loader admits (X4: [load_typed] refuses more than [load]) *)
+Check load_typed_screens : forall hd un tb t, load_typed hd un tb = Some t -> Forall (fun f => plain_path (fpath f)) (files_of t).
+Theorem c13_typed_loader_admits_only_plain : forall hd un tb t,
+  load_typed hd un tb = Some t -> Forall (fun f => plain_path (fpath f)) (files_of t).
+Proof. exact load_typed_screens. Qed.
 
 (** ... and a multi-file torrent listing any other component is refused, whatever else it says *)
 Check load_info_rejects : forall i fl d l s,
@@ -42,39 +47,39 @@ Proof. exact plain_never_escapes. Qed.
 
 (** the outcome of the command is the same on any two filesystems in which the content root
     resolves to the same node: decoys outside the root cannot matter *)
-Check verify_cmd_confined : forall H MD5 sch fs fs' cwd content base input tb,
-  (forall t root, load tb = Some t ->
+Check verify_cmd_confined : forall H MD5 sch hd un fs fs' cwd content base input tb,
+  (forall t root, load_typed hd un tb = Some t ->
                   env_resolve cwd (content_root content base input (tname t)) = Some root ->
                   resolve fs root = resolve fs' root) ->
-  verify_cmd H MD5 sch fs cwd content base input tb = verify_cmd H MD5 sch fs' cwd content base input tb.
-Theorem c13_outcome_depends_only_on_root_subtree : forall H MD5 sch fs fs' cwd content base input tb,
-  (forall t root, load tb = Some t ->
+  verify_cmd H MD5 sch hd un fs cwd content base input tb = verify_cmd H MD5 sch hd un fs' cwd content base input tb.
+Theorem c13_outcome_depends_only_on_root_subtree : forall H MD5 sch hd un fs fs' cwd content base input tb,
+  (forall t root, load_typed hd un tb = Some t ->
                   env_resolve cwd (content_root content base input (tname t)) = Some root ->
                   resolve fs root = resolve fs' root) ->
-  verify_cmd H MD5 sch fs cwd content base input tb = verify_cmd H MD5 sch fs' cwd content base input tb.
+  verify_cmd H MD5 sch hd un fs cwd content base input tb = verify_cmd H MD5 sch hd un fs' cwd content base input tb.
 Proof. exact verify_cmd_confined. Qed.
 
 (** success implies every judged path is plain, inside the root lexically, and found by descent *)
-Check success_confined : forall H MD5 sch fs cwd content base input tb,
-  verify_cmd H MD5 sch fs cwd content base input tb = Some Success ->
-  exists t root, load tb = Some t /\
+Check success_confined : forall H MD5 sch hd un fs cwd content base input tb,
+  verify_cmd H MD5 sch hd un fs cwd content base input tb = Some Success ->
+  exists t root, load_typed hd un tb = Some t /\
     env_resolve cwd (content_root content base input (tname t)) = Some root /\
     forall f, In f (files_of t) ->
       plain_path (fpath f) /\ lex_escapes root (fpath f) = false /\
       resolve fs (absolute root (fpath f)) = match resolve fs root with Some r => lookup r (fpath f) | None => None end.
-Theorem c13_success_implies_confined : forall H MD5 sch fs cwd content base input tb,
-  verify_cmd H MD5 sch fs cwd content base input tb = Some Success ->
-  exists t root, load tb = Some t /\
+Theorem c13_success_implies_confined : forall H MD5 sch hd un fs cwd content base input tb,
+  verify_cmd H MD5 sch hd un fs cwd content base input tb = Some Success ->
+  exists t root, load_typed hd un tb = Some t /\
     env_resolve cwd (content_root content base input (tname t)) = Some root /\
     forall f, In f (files_of t) ->
       plain_path (fpath f) /\ lex_escapes root (fpath f) = false /\
       resolve fs (absolute root (fpath f)) = match resolve fs root with Some r => lookup r (fpath f) | None => None end.
 Proof. exact success_confined. Qed.
 
-Theorem c13_escape_never_good : forall H MD5 sch fs cwd content base input tb t,
-  load tb = Some t ->
+Theorem c13_escape_never_good : forall H MD5 sch hd un fs cwd content base input tb t,
+  load_typed hd un tb = Some t ->
   (exists f root, In f (files_of t) /\ lex_escapes root (fpath f) = true) ->
-  verify_cmd H MD5 sch fs cwd content base input tb <> Some Success.
+  verify_cmd H MD5 sch hd un fs cwd content base input tb <> Some Success.
 Proof. exact escape_never_good. Qed.
 
 (** instances: in the model's filesystem "../decoy" and an absolute component really do reach a
@@ -84,7 +89,7 @@ Example c13_ex_dotdot :
   let root := cwd_w ++ [SEP; 114] in
   resolve ex_fs (absolute root comps) = Some (File hi) /\
   lex_escapes root comps = true /\
-  load (ex_multi (map Str comps)) = None /\
+  load (ex_multi (map Str comps)) = None /\ load_typed xid xid (ex_multi (map Str comps)) = None /\
   run (ex_multi (map Str comps)) = Some Rejected.
 Proof. exact ex_escape_rejected. Qed.
 Example c13_ex_absolute :
@@ -99,6 +104,7 @@ Proof. exact ex_multi_success. Qed.
 
 Print Assumptions c13_screening_is_plain.
 Print Assumptions c13_loader_admits_only_plain.
+Print Assumptions c13_typed_loader_admits_only_plain.
 Print Assumptions c13_hostile_component_refused.
 Print Assumptions c13_plain_paths_are_confined.
 Print Assumptions c13_plain_never_escapes.
